@@ -128,6 +128,12 @@ fn gen_between(rng: &mut Rng, page: &mut u8, prog: &mut usize, evs: &mut Vec<Ev>
 
 pub fn gen_scenario(rng: &mut Rng, page0: u8, style: u64) -> Vec<Ev> {
   let mut evs = Vec::new();
+  // one scenario in three runs with the LCD on (a transfer takes longer than a line, so it overlaps the OAM search and
+  // the pixel transfer of at least one line unless it falls into VBlank): the copy and CPU writes to OAM are the same
+  if rng.chance(1, 3) {
+    evs.push(Ev::W(0xff40, 0x80 | rng.u8()));
+    if rng.chance(1, 2) { evs.push(Ev::B(4 * rng.below(18000) as usize)); }
+  }
   // idle time first: no DMA is active, nothing may change; also moves the LCD/timer phase
   if rng.chance(1, 2) { evs.push(Ev::B(4 * rng.below(300) as usize)); }
   if (0x40..0x80).contains(&page0) || rng.chance(1, 6) {
